@@ -44,6 +44,7 @@ def mai_ref(fn, hsn, maio, n):
 
 def jobs(tier, seed):
     out = [('py.N=%d' % n, 'h_py', dict(n=n)) for n in range(1, 65)] + [('py.table', 'h_table', {})]
+    out += [('py.two-configs.N=%d,%d' % (a, b), 'h_py_pair', dict(n1=a, n2=b)) for a, b in ((5, 6), (6, 5), (2, 3), (9, 12), (33, 64), (4, 4), (7, 1))]
     out += [('c.N=%d' % n, 'c_hop', dict(n=n)) for n in range(1, 65)]
     out += [('c.table', 'c_table', {}), ('c.not-hopping', 'c_fixed', {}), ('c.validation', 'c_validate', dict(seed=seed))]
     return out
@@ -74,6 +75,24 @@ def h_py(ctx, n):
         got = hp.resolve(fn)
     want = lookup(ma, mai_ref(fn, hsn, maio, n))
     ctx.check('resolve==MA[MAI]', eq(got, want))
+
+
+def h_py_pair(ctx, n1, n2):
+    """two hopping configurations alive in one process (MS and BTS side, several channels): resolving one must not
+    influence the other; both in the same frame and the second also in another frame, then the first again"""
+    T = env.load(ctx, 'gsm_shared')
+    fn = ctx.int('fn', 0, HYPER - 1); fn2 = ctx.int('fn2', 0, HYPER - 1)
+    cfg = []
+    with env.symbolic(ctx), ctx.no_raise('resolve:no-exception'):
+        for i, n in enumerate((n1, n2)):
+            hsn = ctx.int('hsn%d' % i, 0, 63); maio = ctx.int('maio%d' % i, 0, 63)
+            ma = [1000 * (i + 1) + 7 * k for k in range(n)]
+            cfg.append((T.gsm_shared.HoppingParams(hsn, maio, ma), hsn, maio, ma, n))
+        seq = [(0, fn), (1, fn), (1, fn2), (0, fn2), (0, fn)]
+        got = [cfg[i][0].resolve(f) for i, f in seq]
+    for k, (i, f) in enumerate(seq):
+        hp, hsn, maio, ma, n = cfg[i]
+        ctx.check('step%d:config%d:resolve==MA[MAI]' % (k, i), eq(got[k], lookup(ma, mai_ref(f, hsn, maio, n))))
 
 
 # ------------------------------------------------------------------ firmware side (llsym)
